@@ -119,7 +119,7 @@ type c12Case struct {
 	MaxLen   int64 `json:"maxlen"` // RelayOption.MaxMessageLength (0 = 1 MiB); every client frame is shorter
 	// Opts: 0 = SendTimeout 30 s, ping every minute; 1 = SendTimeout 0 (no write deadline), ping every minute;
 	// 2 = SendTimeout 0 and PingDuration 0 (both switched off); 3 = SendTimeout 30 s, PingDuration 0
-	// 5 = SendTimeout 200 ms, ping every minute, and the client waits 450 ms before its last frame
+	// 5 = SendTimeout 600 ms, ping every minute, and the client waits 900 ms before its last frame
 	// 4 = no RelayOption at all (NewRelay(h, nil): the defaults, receive rate 10/s with burst 10, limit 100000 bytes)
 	Opts int `json:"opts"`
 	// MuxLog: the ServeMux has a Logger
@@ -713,7 +713,7 @@ func c12Run(c *c12Case) {
 		}
 		if c.Opts == 5 && i == len(payloads)-1 {
 			// a quiet period longer than the send timeout: a deadline is for one write, not for the connection
-			time.Sleep(c12QuietSendTimeout + 250*time.Millisecond)
+			time.Sleep(c12QuietSendTimeout + 300*time.Millisecond)
 		}
 		if err := c12Send(ctx, conn, typ, p, c.Frames[i].Frag); err != nil {
 			rec.note("write of frame %d failed: %v", i, err)
@@ -1424,7 +1424,7 @@ func c12FrameOf(b c12Built, outs []c12Out) c12Frame {
 	return f
 }
 
-const c12QuietSendTimeout = 200 * time.Millisecond
+const c12QuietSendTimeout = 600 * time.Millisecond
 
 func c12Generate(r *common.Rand, idx int) c12Case {
 	g := &c12Gen{r: r}
